@@ -397,7 +397,14 @@ def search(ctx, model, why):
     """thorough tier: the property oracle on the implementation alone over fresh random trees"""
     env = G.Env()
     orc = G.oracle(env)
-    for i in range(ctx.n(0, 1500)):
+    if why is not None:
+        # a generated obligation no longer checks: exercise exactly the classes / methods whose table rows differ
+        import opalg_panel
+
+        r = opalg_panel.search(ctx, env, keys=None)
+        if r is not None:
+            return r
+    for i in range(ctx.n(0, 1500) if why is None else 300):
         dt_of = T.dtype_regime(ctx.rng)
         insh = T.shape(ctx.rng)
         outsh = insh if ctx.rng.random() < 0.5 else T.shape(ctx.rng)
